@@ -323,7 +323,10 @@ def higherRanked (cb : Callback) : Bool :=
     | _ => false)
 
 /-- the obligations concern what safe client code can call -/
-def _root_.FactsTraits.Sig.obligated (s : Sig) : Bool := s.isPub && !s.isUnsafe
+def _root_.FactsTraits.Sig.obligated (s : Sig) : Bool :=
+  -- `unsafe fn CoerciblePtr::replace_ptr` is what the SAFE `unsize::CoerceUnsize::unsize` (feature `unsize`) returns
+  -- through: its output type is what safe code gets, so its regions are obligated too
+  s.isPub && (!s.isUnsafe || s.trait_ == "CoerciblePtr")
 
 def sigsBounded (sigs : List Sig) : Bool := (sigs.filter Sig.obligated).all regionBounded
 def callbacksHigherRanked (sigs : List Sig) : Bool :=
